@@ -10,7 +10,7 @@
 EXTENDS Naturals, Integers, Sequences, FiniteSets, Json, IOUtils, TLC
 
 Rec == ndJsonDeserialize(IOEnv.TRACE)
-VARIABLES l, user, file, maybeU, maybeF, crashedAt, baseline
+VARIABLES l, user, file, maybeU, maybeF, crashedAt, baseline, afterCrash
 
 Docs == {1, 2}
 Elems(s) == {s[i] : i \in DOMAIN s}
@@ -21,25 +21,27 @@ SameLetters(a, b) == a # b /\ <<a, b>> \in {<<"zzyzxq", "Zzyzxq">>, <<"Zzyzxq", 
 CaseClashWith(w, S) == \E x \in S : SameLetters(w, x)
 
 TraceInit == l = 1 /\ user = {} /\ file = [d \in Docs |-> {}] /\ maybeU = {} /\ maybeF = [d \in Docs |-> {}] /\ crashedAt = 0
-             /\ baseline = [d \in Docs |-> -1]
-Unch == UNCHANGED <<user, file, maybeU, maybeF, crashedAt, baseline>>
+             /\ baseline = [d \in Docs |-> -1] /\ afterCrash = {}
+Unch == UNCHANGED <<user, file, maybeU, maybeF, crashedAt, baseline, afterCrash>>
 Step(e) ==
   CASE e.ev = "Reset" -> user' = {} /\ file' = [d \in Docs |-> {}] /\ maybeU' = {} /\ maybeF' = [d \in Docs |-> {}] /\ crashedAt' = 0
-                         /\ baseline' = [d \in Docs |-> -1]
+                         /\ baseline' = [d \in Docs |-> -1] /\ afterCrash' = {}
     \* a dictionary file that was there before the server ran: its words are stored words
     [] e.ev = "Preexisting" ->
          /\ IF e.scope = "user" THEN user' = user \cup Elems(e.words) /\ UNCHANGED file
             ELSE file' = [file EXCEPT ![e.doc] = @ \cup Elems(e.words)] /\ UNCHANGED user
-         /\ UNCHANGED <<maybeU, maybeF, crashedAt, baseline>>
+         /\ UNCHANGED <<maybeU, maybeF, crashedAt, baseline, afterCrash>>
     [] e.ev = "Added" ->
          /\ IF e.scope = "user" THEN user' = user \cup {e.w} /\ UNCHANGED file
             ELSE file' = [file EXCEPT ![e.doc] = @ \cup {e.w}] /\ UNCHANGED user
          /\ UNCHANGED <<maybeU, maybeF, crashedAt, baseline>>
+         \* words added once a crash is behind us: the truncate-before-write window of THAT crash cannot explain their loss
+         /\ afterCrash' = IF crashedAt # 0 THEN afterCrash \cup {e.w} ELSE afterCrash
          /\ IF ~e.completed THEN PrintT(<<"REJECT", l, "add-word-command-did-not-finish", "">>) ELSE TRUE
     [] e.ev = "Crashed" ->
          /\ IF e.scope = "user" THEN maybeU' = maybeU \cup {e.w} /\ UNCHANGED maybeF
             ELSE maybeF' = [maybeF EXCEPT ![e.doc] = @ \cup {e.w}] /\ UNCHANGED maybeU
-         /\ crashedAt' = e.at /\ UNCHANGED <<user, file, baseline>>
+         /\ crashedAt' = e.at /\ UNCHANGED <<user, file, baseline, afterCrash>>
     [] e.ev \in {"Restart", "Moved"} -> Unch
     \* DictPath.tla (SavedWhereConfigured): after the user dictionary has moved, nothing may appear at its old place
     [] e.ev = "Stray" -> Unch /\ IF e.exists THEN PrintT(<<"REJECT", l, "word-stored-where-no-dictionary-is-configured", "">>) ELSE TRUE
@@ -59,12 +61,13 @@ Step(e) ==
             IN IF missing # {} THEN
                   (IF \E w \in missing : CaseClashWith(w, want \cup may)
                    THEN PrintT(<<"REJECT", l, "added-word-replaced-by-its-case-variant", "">>)
+                   ELSE IF missing \cap afterCrash # {} THEN PrintT(<<"REJECT", l, "word-added-after-a-crash-is-missing-from-the-file", "">>)
                    ELSE IF crashedAt # 0 THEN PrintT(<<"REJECT", l, "crash-during-save-lost-earlier-words", "">>)
                    ELSE PrintT(<<"REJECT", l, "added-word-missing-from-the-file", "">>))
                ELSE IF extra # {} THEN PrintT(<<"REJECT", l, "file-holds-a-word-never-added", "">>)
                ELSE TRUE
     [] e.ev = "Published" ->
-         /\ UNCHANGED <<user, file, maybeU, maybeF, crashedAt>>
+         /\ UNCHANGED <<user, file, maybeU, maybeF, crashedAt, afterCrash>>
          /\ baseline' = IF baseline[e.doc] = -1 THEN [baseline EXCEPT ![e.doc] = e.other] ELSE baseline
          /\ LET fl == Elems(e.flagged)
                 mine == user \cup file[e.doc]
@@ -78,6 +81,7 @@ Step(e) ==
             IN IF back # {} THEN
                   (IF \E w \in back : CaseClashWith(w, mine \cup maybeU \cup maybeF[e.doc])
                    THEN PrintT(<<"REJECT", l, "added-word-replaced-by-its-case-variant", "">>)
+                   ELSE IF back \cap afterCrash # {} THEN PrintT(<<"REJECT", l, "word-added-after-a-crash-is-reported", "">>)
                    ELSE IF crashedAt # 0 THEN PrintT(<<"REJECT", l, "crash-during-save-lost-earlier-words", "">>)
                    ELSE PrintT(<<"REJECT", l, "added-word-reported", "">>))
                ELSE IF leak # {} THEN PrintT(<<"REJECT", l, "file-dictionary-word-accepted-in-another-file", "">>)
